@@ -139,7 +139,9 @@ fn c19_case_pat(id: usize, decls: &[DeclK], bg: bool, pat: &[usize]) -> Case {
     let mut inline = String::new();
     for (i, d) in decls.iter().enumerate() {
         let (r, g_, b) = colour_of(pat[i]);
-        let decl = format!("{}:#{:02x}{:02x}{:02x}{};", prop, r, g_, b, if d.important { " !important" } else { "" });
+        // (the priority flag in its legal spellings: letter case, white space or a comment after the '!')
+        const IMP: [&str; 10] = [" !important", " !important", "!important", " !IMPORTANT", " !important", " ! important", " !/**/important", " !important", " !\timportant ", "!Important"];
+        let decl = format!("{}:#{:02x}{:02x}{:02x}{};", prop, r, g_, b, if d.important { IMP[(id + 3 * i) % IMP.len()] } else { "" });
         match d.origin {
             0 => agent.push_str(&format!("{}{{{}}}", sel_text(d.spec), decl)),
             1 => user.push_str(&format!("{}{{{}}}", sel_text(d.spec), decl)),
